@@ -444,8 +444,12 @@ def run(tape, prop, tier):
                 for key, n in pool._host_pool_waiters.items():
                     if n:
                         r.violate(P, 'leak', 'waiter-count-nonzero', 'waiter count %d for %r after all clients finished' % (n, key))
-                if pool.count() > max_count:
-                    pass
+                # idle hosts (no connection at all, nobody waiting) must be gone NOW - not only after the next release or an
+                # explicit clean(): the statement says "once all clients have finished"
+                stale = [k for k, hp in pool.host_pools.items() if hp.empty() and not pool._host_pool_waiters.get(k)]
+                if stale:
+                    r.violate(P, 'leak', 'idle-host-bookkeeping-kept:before-clean', 'all clients finished, nothing checked out, but empty host pools are still '
+                              'registered: %r' % (stale,))
                 try:
                     @asyncio.coroutine
                     def fin():
